@@ -117,3 +117,24 @@ def crate_for_repo(name):
     if name == 'replay_cfg':      # include_bytes! of the RSA fixtures is relative to the sibling crate
         m = os.path.join(dst, 'src', 'main.rs'); txt = open(m).read(); open(m, 'w').write(txt.replace('../../replay/keys/', os.path.join(VERIF, 'replay', 'keys') + '/'))
     return dst, tgt + '-' + tag
+
+
+def dependency_fingerprint():
+    """the [dependencies] table of the working tree's Cargo.toml (version requirement, features, default-features, optional) and the versions Cargo.lock resolves them to.
+    The contracts of vf/coremodel.py and vf/uppermodel.py describe those crates as built with exactly these settings."""
+    import re as _re
+    txt = open(os.path.join(REPO, 'Cargo.toml')).read()
+    m = _re.search(r'^\[dependencies\]\n(.*?)(?=^\[)', txt + '\n[', _re.S | _re.M)
+    deps = {}
+    for line in (m.group(1) if m else '').split('\n'):
+        line = line.split('#')[0].strip()
+        mm = _re.match(r'([\w-]+)\s*=\s*(.*)$', line)
+        if mm: deps[mm.group(1)] = _re.sub(r'\s+', ' ', mm.group(2)).strip()
+    for sec in _re.finditer(r'^\[dependencies\.([\w-]+)\]\n(.*?)(?=^\[)', txt + '\n[', _re.S | _re.M):
+        deps[sec.group(1)] = _re.sub(r'\s+', ' ', ' '.join(l.split('#')[0].strip() for l in sec.group(2).split('\n') if l.strip()))
+    lock = {}
+    lp = os.path.join(REPO, 'Cargo.lock')
+    if os.path.exists(lp):
+        for pk in _re.finditer(r'\[\[package\]\]\nname = "([^"]+)"\nversion = "([^"]+)"', open(lp).read()):
+            if pk.group(1) in deps: lock.setdefault(pk.group(1), []).append(pk.group(2))
+    return {'dependencies': deps, 'resolved': {k: sorted(v) for k, v in lock.items()}}
